@@ -52,6 +52,12 @@ theorem C08_buf_fifo (rs : List Round) (b b' : NB) (n : Nat) (h : OK b) (hs : fi
   obtain ⟨_, _, h3, h4, _⟩ := fillSerial_spec rs b b' n h hs
   rw [h3, h4, List.append_assoc]
 
+/-- C07: the cache is sound — every point the serial loop adds came out of the outer union in this very call (and, by the
+    oracle, passed the networks): nothing enters the cache on any other way -/
+theorem C07_buf_sound (rs : List Round) (b b' : NB) (n : Nat) (h : OK b) (hs : fillSerial b n rs = some b') :
+    ∃ extra, b'.outer.out = b.outer.out ++ extra ∧ ∀ p ∈ b'.inner.buf, p ∈ b.inner.buf ∨ p ∈ extra :=
+  fillSerial_sound rs b b' n h hs
+
 /-- C07: the caller receives the inverse phase shift of the cached points, applied exactly once, and only to what is handed
     out: the cache itself stays in the shifted frame -/
 theorem C07_buf_frame (unsh : Pt → Pt) (pts : List Pt) :
